@@ -452,7 +452,41 @@ func genMig(t *rapid.T) migCase {
 		return migCase{Kind: "addr", Addr: addr}
 	}
 	s := []byte(refMigEncode(addr))
-	switch h.Pick(t, "sk", 2, 4, 2, 2, 1, 1, 1) {
+	switch h.Pick(t, "sk", 2, 4, 2, 2, 1, 1, 1, 2) {
+	case 7:
+		// an invalid tryte pair inside the address part, with checksum trytes that match what a decoder
+		// might compute after mishandling it: the hash of nothing, of the bytes before the fault, of the
+		// address with the group read as zero or reduced mod 256, or of 32 zero bytes
+		g := rapid.IntRange(0, 31).Draw(t, "badgroup")
+		var pair []byte
+		for {
+			pair = []byte{trit.TryteAlphabet[rapid.IntRange(0, 26).Draw(t, "g0")], trit.TryteAlphabet[rapid.IntRange(0, 26).Draw(t, "g1")]}
+			tr, _ := trit.TrytesToTrits(string(pair))
+			if _, err := trit.B1T6Decode(tr); err != nil {
+				break
+			}
+		}
+		v0, _ := trit.TryteValue(pair[0])
+		v1, _ := trit.TryteValue(pair[1])
+		var pre []byte
+		switch h.Pick(t, "mis", 2, 1, 1, 1, 1) {
+		case 0:
+			pre = nil
+		case 1:
+			pre = append([]byte{}, addr[:g]...)
+		case 2:
+			pre = append([]byte{}, addr...)
+			pre[g] = 0
+		case 3:
+			pre = append([]byte{}, addr...)
+			pre[g] = byte(v0 + 27*v1)
+		default:
+			pre = make([]byte, 32)
+		}
+		sum := blake2b.Sum256(pre)
+		body := []byte(trit.TritsToTrytes(trit.B1T6Encode(append(append([]byte{}, addr...), sum[:4]...))))
+		copy(body[2*g:], pair)
+		s = []byte("TRANSFER" + string(body) + "9")
 	case 0: // valid as is
 	case 1: // substitute 1..2 trytes
 		for i := 0; i < rapid.IntRange(1, 2).Draw(t, "nsub"); i++ {
@@ -491,7 +525,7 @@ func TestMigration(t *testing.T) {
 		Prop: "C19", Name: "migration", N: 60000,
 		Gen: genMig, Check: checkMig,
 		Require: []string{"mig/roundtrip", "mig/accept", "mig/reject-checksum", "mig/reject-groups", "mig/reject-prefix", "mig/reject-suffix", "mig/reject-length", "mig/reject-alphabet"},
-		Rule:    "32-byte addresses (Encode = reference, Decode inverts) and 81-tryte strings: valid forms, 1-2 tryte substitutions, valid groups with wrong checksum, random trytes, wrong lengths, non-tryte characters; Decode accepts iff the reference decoder does and then re-encodes to the input; non-trivial = passes the length/alphabet guard; distinct by case",
+		Rule:    "32-byte addresses (Encode = reference, Decode inverts) and 81-tryte strings: valid forms, 1-2 tryte substitutions, valid groups with wrong checksum, an invalid tryte pair in the address part with a checksum matching a mishandled decoding (hash of nothing / of the bytes before the fault / of the address with the group read as 0 or mod 256), random trytes, wrong lengths, non-tryte characters; Decode accepts iff the reference decoder does and then re-encodes to the input; non-trivial = passes the length/alphabet guard; distinct by case",
 	})
 }
 
